@@ -217,12 +217,11 @@ def run_history(ctx, store, imp, cls, hist):
                 return False
         # ---- imports land complete (collision of internal keys would show as a deficit)
         if exc is None and op['op'] in ('import_string', 'import_direct', 'delete_then_reimport'):
-            # one-graph-per-store flavour: an id that was ever touched (even by a delete, which creates the emptied entry)
-            # is documented as 'already present, import skipped' - the target's content is not judged there
-            skip = (store == 'disjoint' and op['op'] != 'import_direct' and
-                    (op['g'] in used_ids or op['op'] == 'delete_then_reimport'))
+            # one-graph-per-store flavour: an import under the id of a graph that exists (holds nodes) is documented as
+            # 'already present, skipping' - the target's content is not judged there
+            skip = (store == 'disjoint' and op['op'] == 'import_string' and bool((before.get(op['g']) or {}).get('nodes')))
             if skip:
-                ctx.count('import-content-not-judged(disjoint, id seen before)')
+                ctx.count('import-content-not-judged(disjoint, graph exists)')
             if not skip:
                 ctx.count('import-content-checked')
                 exp = rawgraph.expected_canon(op['desc'])
@@ -235,7 +234,7 @@ def run_history(ctx, store, imp, cls, hist):
                     ctx.violation(f'C04/{op["op"]}-graph-id', 'import returns a handle on the requested graph id', w)
                     return False
         if exc is None and op['op'] == 'clone' and op['to'] != op['g']:
-            skip = (store == 'disjoint' and op['to'] in used_ids)
+            skip = (store == 'disjoint' and bool((before.get(op['to']) or {}).get('nodes')))
             if not skip and before.get(op['g']) is not None:
                 ctx.count('clone-equal-checked')
                 if any(not isinstance(v, (str, int)) or (isinstance(v, str) and any(ord(c) < 32 and c not in '\t\n' for c in v))
